@@ -86,6 +86,19 @@ func boundsRun(c *Ctx, entries []*ssa.Function, hooks *bounds.Hooks) int {
 			if ks := os.Getenv("RTPCHECK_K"); ks != "" {
 				fmt.Sscan(ks, &ecfg.K)
 			}
+			if lc, ok := entryLoopCap[core.FuncName(fn)]; ok {
+				ecfg.LoopEntryCap = lc
+			}
+			if ks := os.Getenv("RTPCHECK_LOOPCAP"); ks != "" {
+				fmt.Sscan(ks, &ecfg.LoopEntryCap)
+			}
+			if ks := os.Getenv("RTPCHECK_RETCAP"); ks != "" {
+				fmt.Sscan(ks, &ecfg.RetCap)
+			}
+			if c.lemmas != nil && c.lemmaEntries[core.FuncName(fn)] {
+				ecfg.Lemmas = c.lemmas // only where the lemma is needed: elsewhere the callee is expanded as before
+			}
+			ecfg.Modular = c.modular
 			eng := bounds.New(p, ecfg, hooks)
 			eng.AnalyzeEntry(fn)
 			results[i] = result{eng: eng, dt: time.Since(t1).Seconds()}
@@ -137,6 +150,12 @@ func boundsRun(c *Ctx, entries []*ssa.Function, hooks *bounds.Hooks) int {
 		for f := range res.eng.Funcs() {
 			nfuncs[f] = true
 			r.FuncsSeen[core.FuncName(f)] = true
+		}
+		for l := range res.eng.LemmasUsed() {
+			if c.lemmasUsed == nil {
+				c.lemmasUsed = map[string]bool{}
+			}
+			c.lemmasUsed[l] = true
 		}
 		en, fe, st := res.eng.Stats()
 		totalEn, totalFe, totalSt = totalEn+en, totalFe+fe, totalSt+st
@@ -316,6 +335,11 @@ func partSuffix(kind string, fails map[int]bool) string {
 // tier (their hard obligations are non-linear and listed in the assumed table either way; the
 // thorough tier uses the full precision).
 var entryK = map[string]int{"codecs.(*AV1Payloader).Payload": 16}
+
+// entryLoopCap: entries whose loops are analysed from a coarser entry state (bounds.Config.LoopEntryCap): the
+// fragment loop of the AV1 helper is entered on some sixty paths and splits four ways itself; nothing in its
+// body depends on which of those paths was taken.
+var entryLoopCap = map[string]int{"codecs.(*AV1Payloader).appendOBUPayload": 4}
 
 // boundsFor runs the BOUNDS engine over the given entry points with the property's contracts.
 var boundsFor = func(c *Ctx, prop string, entries []*ssa.Function) {
